@@ -52,7 +52,14 @@ def search(rep: C.Report, tier: str, broken):
         for tol in tols:
             base = _run(kind, 1.0, tol)
             for u in us:
-                got = _run(kind, u, tol)
+                try:
+                    got = _run(kind, u, tol)
+                except Exception as ex:  # noqa: BLE001
+                    rep.violation(f"the solver chain (hydrodynamics, LTE velocity, wall solve) raises under the unit factor {u} although it works for the factor 1",
+                                  {"model": kind, "unit_factor": u, "tolerances": tol, "error": f"{type(ex).__name__}: {str(ex)[:300]}", "base": base,
+                                   "how": "eom_common.make_eom(kind, dict(u=u)) then findWallVelocityDeflagrationHybrid / findMatching(0.4) / findvwLTE"},
+                                  finding_key=f"C07:{kind}:raises")
+                    continue
                 info = {"model": kind, "unit_factor": u, "tolerances": tol, "base": base, "scaled": got,
                         "how": "eom_common.make_eom(kind, dict(u=u)) : T0, fields and V rescaled by u, u, u^4"}
                 rep.case(key=(kind, u, tol["errTol"]), sample=info if len(rep.samples) < 2 else None)
